@@ -106,6 +106,9 @@ class GrpcStorageProxy(BaseStorage):
             if e.code() == grpc.StatusCode.ALREADY_EXISTS:
                 raise DuplicatedStudyError from e
             raise
+        # A backend may hand out the id of a study that another client deleted (SQLite does).
+        # Whatever is cached under that id belongs to the dead study.
+        self._cache.delete_study_cache(response.study_id)
         return response.study_id
 
     def delete_study(self, study_id: int) -> None:
